@@ -130,3 +130,22 @@ def C12_punct_class_symbols(req, imp):
     if p is None or imp == "panic":
         return False
     return "[:punct:]" in p
+
+
+def C16_H_start_normalised(req, imp):
+    """-printf %H prints the starting point through Path::ancestors(), i.e. without a trailing
+    slash, '/.' or doubled slashes ('find dir/ -printf %H' prints 'dir'); the entry does not
+    carry the starting point as it was spelled"""
+    import re
+    r = _find_req(req)
+    if r is None:
+        return False
+    _, roots, args = r
+    fmts = [bytes.fromhex(a.split(":", 1)[1]).decode("utf-8", "replace") for a in args if a.startswith("printf:") and a != "printf:-"]
+    if not any(re.search(r"%[- ]*[0-9]*H", f) for f in fmts):
+        return False
+    for w in roots:
+        start = _unhex(w.split("=", 1)[0]).decode("utf-8", "replace")
+        if (len(start) > 1 and start.endswith("/")) or "//" in start or "/./" in start or start.endswith("/."):
+            return True
+    return False
